@@ -76,6 +76,12 @@ def ReqsBefore (I T : Nat) : RDeb → List RAct → Prop
   | _, [] => True
   | d, a :: as => (a = .debounce → d.now < T) ∧ a ≠ .refreshNow ∧ ReqsBefore I T (rstep I d a) as
 
+instance decReqsBefore (I T : Nat) : (d : RDeb) → (as : List RAct) → Decidable (ReqsBefore I T d as)
+  | _, [] => isTrue trivial
+  | d, a :: as =>
+    have := decReqsBefore I T (rstep I d a) as
+    inferInstanceAs (Decidable ((a = .debounce → d.now < T) ∧ a ≠ .refreshNow ∧ ReqsBefore I T (rstep I d a) as))
+
 theorem rrun_phi (I T : Nat) (as : List RAct) : ∀ (d : RDeb), T ≤ d.now + I → ReqsBefore I T d as →
     (rrun I d as).refreshes + phi T (rrun I d as) ≤ d.refreshes + phi T d := by
   induction as with
